@@ -8,12 +8,12 @@ use crate::driver::{AnyFlow, ReqCfg};
 use crate::engine::{guarded, Report, Tier, Violation};
 use crate::refmodel::reqvalid::{self, ReqFacts};
 
-pub const RULE: &str = "full product: version {0.9,1.0,1.1,2,3} x 9 methods x Host {none, one, two orig, orig+added, non-textual (invalid UTF-8), non-ASCII but well-formed UTF-8} x Content-Length {none, 3, 0, two orig, orig+added, -1, abc, non-utf8} x Transfer-Encoding {none, chunked, Chunked, CHUNKED} x despite-method {no,yes} x front end {Flow, Call::without_body, Call::with_body}; plus non-standard method tokens {get, Post, head, PURGE, M-SEARCH, GETX} x versions x Content-Length {none,3} x Transfer-Encoding {none, chunked} x despite x front ends (all refused); plus flows obtained by following a 302 (original POST with Content-Length / GET, inherited Content-Length and Cookie suppressed) x caller-added Host {none, one, two} x caller-added Content-Length {none, 3, 0, two, -1, abc, non-utf8} x Transfer-Encoding x despite; every cell with the library's logging off and again at level Trace; per cell: write(4 KiB sentinel buffer) twice, write(empty buffer), readiness, proceed. distinct = distinct (validity class, front end, outcome) triples";
+pub const RULE: &str = "full product: version {0.9,1.0,1.1,2,3} x 9 methods x Host {none, one, two orig, orig+added, non-textual (invalid UTF-8), non-ASCII but well-formed UTF-8} x Content-Length {none, 3, 0, two orig, orig+added, -1, abc, non-utf8, empty value} x Transfer-Encoding {none, chunked, Chunked, CHUNKED} x despite-method {no,yes} x front end {Flow, Call::without_body, Call::with_body}; plus non-standard method tokens {get, Post, head, PURGE, M-SEARCH, GETX} x versions x Content-Length {none,3} x Transfer-Encoding {none, chunked} x despite x front ends (all refused); plus flows obtained by following a 302 (original POST with Content-Length / GET, inherited Content-Length and Cookie suppressed) x caller-added Host {none, one, two} x caller-added Content-Length {none, 3, 0, two, -1, abc, non-utf8} x Transfer-Encoding x despite; every cell with the library's logging off and again at level Trace; per cell: write(4 KiB sentinel buffer) twice, write(empty buffer), readiness, proceed. distinct = distinct (validity class, front end, outcome) triples";
 
 const METHODS: [&str; 9] = ["GET", "HEAD", "POST", "PUT", "DELETE", "CONNECT", "OPTIONS", "TRACE", "PATCH"];
 const VERSIONS: [&str; 5] = ["0.9", "1.0", "1.1", "2", "3"];
 const HOSTS: [&str; 6] = ["none", "one", "two-orig", "orig+added", "non-textual", "utf8-non-ascii"];
-const CLS: [&str; 8] = ["none", "3", "0", "two-orig", "orig+added", "-1", "abc", "non-utf8"];
+const CLS: [&str; 9] = ["none", "3", "0", "two-orig", "orig+added", "-1", "abc", "non-utf8", "empty"];
 const FRONTS: [&str; 3] = ["flow", "call-without-body", "call-with-body"];
 /// method tokens that are not one of the standard methods (tokens are case-sensitive): refused
 const ODD_METHODS: [&str; 6] = ["get", "Post", "head", "PURGE", "M-SEARCH", "GETX"];
@@ -70,7 +70,7 @@ fn cells() -> Vec<Cell> {
     for version in ["1.0", "1.1"] {
         for method in ["POST", "GET"] {
             for host in ["none", "added", "two-added"] {
-                for cl in ["none", "3", "0", "orig+added", "two-added", "-1", "abc", "non-utf8"] {
+                for cl in ["none", "3", "0", "orig+added", "two-added", "-1", "abc", "non-utf8", "empty"] {
                     for te in ["", "chunked"] {
                         for despite in [false, true] {
                             v.push(Cell { version, method, host, cl, te, despite, front: "flow-redirected" });
@@ -104,6 +104,7 @@ fn redirected_cfgs(c: &Cell) -> (ReqCfg, ReqCfg) {
         "two-added" => m = m.added("content-length", "3").added("content-length", "3"),
         "-1" => m = m.added("content-length", "-1"),
         "abc" => m = m.added("content-length", "abc"),
+        "empty" => m = m.added("content-length", ""),
         "non-utf8" => m.added.push(("content-length".into(), vec![b'3', 0xe9])),
         _ => {}
     }
@@ -142,6 +143,7 @@ fn cfg_of(c: &Cell) -> ReqCfg {
         }
         "-1" => r = r.orig("content-length", "-1"),
         "abc" => r = r.orig("content-length", "abc"),
+        "empty" => r = r.orig("content-length", ""),
         "non-utf8" => r = r.orig_b("content-length", &[b'3', 0xe9]),
         _ => {}
     }
